@@ -13,6 +13,10 @@ CLAIMS = {
                 text="Held on N random accumulator histories: every return value and every scope-exit panic compared with a sequential model; drop-during-unwind histories run in a child process whose abnormal exit is the violation.",
                 note="Trusts catch_unwind and process exit status as observations.",
                 technique="runtime monitoring: history checking against a sequential model, child-process abort detection"),
+    "C06": dict(engine="direct",
+                text="Held on N generated DeriveInput items (all data shapes, generics, hostile #[darling ...] bodies on container / variant / field positions) x 6 derives, each run in-process under catch_unwind with its output parsed as items: exactly one impl of the trait or >=1 compile_error!, never both, never nothing, never a panic.",
+                note="The derive functions are called through darling_core::derive::*, which is all the proc-macro shim does after parsing.",
+                technique="runtime monitoring: grammar-based hostile input generation, panic and output-shape monitor around every derive call"),
     "C11": dict(engine="direct",
                 text="Held on the exhaustive sub-space (24 integer targets x [-70000,70000] x quoted/unquoted) plus N random literals (radix 2/8/10/16, underscores, suffixes, 1..60 digits, type boundaries +-2, floats, bool/char/string forms) converted by all 30 scalar targets; reference is str::parse::<T> of the denoted value known to the generator; errors must be spanned inside the item.",
                 note="Trusts Rust's str::parse as the standard parsing the property names and syn's lexer for delivering the literal; items are classified by the syn::Expr variant darling is handed."),
